@@ -486,6 +486,10 @@ def run(ctx, rep):
             f(ctx, rep)
         except Unsupported as u:
             rep.undecided(rule, f.__name__, f"line {getattr(u.node, 'lineno', 0)}", str(u))
+    # the closed-form constants are computed at the precision of the heights: hyper-parameters given as Python numbers stay Python numbers (math.log / math.lgamma) or become
+    # tensors with an explicit dtype, never default-precision tensors that other methods compute with
+    from sa import dtypes
+    dtypes.check_default_precision_attributes(ctx, rep, 'C20.S', [CO, GM, GI])
     rep.rule('C20.H', "the block-update operator reads the published precision matrix of the current state before it stores the proposed precision (and of the proposed state after)")
     check_block_update_reads_before_it_writes(ctx, rep)
     # C20.O — the integrated coalescent and the sufficient statistics sort the events of every sample themselves (order-kind analysis of sa/orders.py)
